@@ -68,11 +68,7 @@ Fixpoint insert_okv (x : okv) (l : list okv) : list okv :=
   end.
 Definition sort_okv (l : list okv) : list okv := fold_right insert_okv [] l.
 
-(* finding C13-F1: Backend.GetPartitions advertises the engine's partitions in the order the engine lists
-   them (the scanner sorts them, GetPartitions does not) *)
-Definition parts_sorted (ps : list part) : bool := sortedb (fun x y => bltb (fst x) (fst y)) ps.
-
-Definition group_verdict (s : raw_store) (cur : N) (calls : list pcall) (g : c13_group) : option N :=
+Definition group_verdict (s : raw_store) (cur : N) (g : c13_group) : option N :=
   let R := eff_rev (g_rev g) cur in
   match g_base g with
   | LResp _ base _ =>
@@ -85,14 +81,12 @@ Definition group_verdict (s : raw_store) (cur : N) (calls : list pcall) (g : c13
         && list_eqb okv_eqb (sort_okv (stream_kvs (g_whole g))) base
         && (length (g_pairs g) + 1 =? length (snd (g_parts g)))%nat
         && forallb (stream_shape R) (g_pairs g)
-      then
-        if list_eqb okv_eqb (sort_okv (flat_map stream_kvs (g_pairs g))) base then None
-        else if parts_sorted (parts_of calls (encode (g_a g) 0) (encode (g_b g) 0)) then Some 0 else Some 1
-      else Some 0
+        && list_eqb okv_eqb (sort_okv (flat_map stream_kvs (g_pairs g))) base
+      then None else Some 0
   | _ => None          (* range refused (a >= b, empty end, below the floor): outside the property *)
   end.
 
 Definition c13_oracle (c : c13_case) : option N :=
   fold_right (fun t acc =>
-      fold_right (fun g acc' => worst (group_verdict (p_dump c) (p_cur c) (t_calls t) g) acc') acc (t_groups t))
+      fold_right (fun g acc' => worst (group_verdict (p_dump c) (p_cur c) g) acc') acc (t_groups t))
     None (p_tilings c).
